@@ -290,7 +290,7 @@ def _func_unit(U, has_r, has_c):
     U.cover('precondition-satisfiable', U.pre, axioms=AXF)
     R1 = r1 if has_r else z3.IntVal(1)
     R2 = r2 if has_c else z3.IntVal(1)
-    N = T.mulI(T.mulI(R1, n), R2)
+    N = T.mul_canon(R1, n, R2)
     width = (w1 if has_r else 0) + 1 + (w2 if has_c else 0)
     for p, o in res:
         if o.kind != 'return':
